@@ -343,6 +343,41 @@ def tlc_validate_events(events: list[dict], part: Part, label: str) -> None:
         shutil.rmtree(scratch, ignore_errors=True)
 
 
+_LAST_EVENTS: list = []
+
+
+def _corruptions(events):
+    """One changed field per copy: each must make a TraceExpr clause fail."""
+    import copy
+
+    out = []
+    for ev in events:
+        if ev["kind"] != "pred":
+            continue
+        kinds = {k for k, _ in out}
+        varied = len(set(ev["iter"])) > 1
+        if varied and "one truth-table entry of the iteration callable flipped" not in kinds:
+            e = copy.deepcopy(ev)
+            e["iter"][0] = 1 - e["iter"][0]
+            out.append(("one truth-table entry of the iteration callable flipped", e))
+        elif varied and "as_trivial claims a constant for a non-constant predicate" not in kinds and ev["triv"] == "N":
+            e = copy.deepcopy(ev)
+            e["triv"] = "T"
+            out.append(("as_trivial claims a constant for a non-constant predicate", e))
+        elif varied and "a conjunct dropped from flatten_logical_and" not in kinds and ev["flat"]["ok"] and len(ev["flat"]["ps"]) >= 1 \
+                and not all(ev["iter"]):
+            e = copy.deepcopy(ev)
+            e["flat"]["ps"] = []
+            out.append(("a conjunct dropped from flatten_logical_and", e))
+        elif "a required column omitted" not in kinds and ev["req"]:
+            e = copy.deepcopy(ev)
+            e["req"] = e["req"][1:]
+            out.append(("a required column omitted", e))
+        if len(out) >= 4:
+            break
+    return out
+
+
 def run(tier: str, seed: int) -> list[Part]:
     parts: list[Part] = []
     cfgs = ["ExprQuick.cfg"] if tier == "quick" else ["ExprQuick.cfg", "ExprRich.cfg", "ExprDeep.cfg"]
@@ -361,6 +396,8 @@ def run(tier: str, seed: int) -> list[Part]:
             rng.shuffle(events)
             events = events[:3000]
         tlc_validate_events(events, part, f"enumerated:{cfg}")
+        if cfg == "ExprQuick.cfg":
+            _LAST_EVENTS[:] = events[:400]
         part.counters["tlc_wall_s"] = res.wall_s
         part.counters["tlc_cached"] = int(res.cached)
         part.wall_s = time.time() - t0
@@ -374,6 +411,23 @@ def run(tier: str, seed: int) -> list[Part]:
     p3.notes.append("TLC refutes the pinned-commit range translation (finding F3, fixed in the code): " + (kf.violated or ""))
     p3.wall_s = time.time() - t0
     parts.append(p3)
+    # the binding binds: corrupted recorded answers must be rejected by TLC
+    selftest = Part(name="traceexpr:corrupt-one-field", cfg="TraceExpr", states=1, transitions=1, exhaustive=False)
+    corrupted = _corruptions(_LAST_EVENTS)
+    before = len(selftest.violations)
+    tlc_validate_events([c for _, c in corrupted], selftest, "selftest")
+    rejected = {json.dumps(v["case"], sort_keys=True) + v["what"] for v in selftest.violations}
+    per_event = {}
+    for v in selftest.violations:
+        per_event.setdefault(json.dumps(v["case"]["e"], sort_keys=True), []).append(v["what"])
+    for kind, ev in corrupted:
+        if json.dumps(ev["e"], sort_keys=True) not in per_event:
+            raise MachineryError(f"binding self-test: TLC accepted a corrupted recorded answer ({kind})")
+    selftest.nontrivial = len(corrupted)
+    selftest.notes.append("corruptions rejected: " + ", ".join(k for k, _ in corrupted))
+    selftest.samples.append({"corruption": corrupted[0][0]} if corrupted else {})
+    selftest.violations = []          # expected rejections, not violations of the code
+    parts.append(selftest)
     # random deeper expressions -> real code -> TLC
     t0 = time.time()
     n = 1500 if tier == "quick" else 20000
